@@ -168,7 +168,8 @@ class BuildStatus:
 
 def _gen_modules() -> List[str]:
     d = os.path.join(TOOLS, "translate")
-    return sorted(f[:-3] for f in os.listdir(d) if f.startswith("gen_c") and f.endswith(".py"))
+    # gen_cNN.py are the translators (entry point generate(lean_dir)); gen_cNN_*.py are their helpers
+    return sorted(f[:-3] for f in os.listdir(d) if re.fullmatch(r"gen_c\d\d\.py", f))
 
 
 def _gen_outputs(mod: str) -> set:
@@ -209,7 +210,7 @@ def regenerate(prop: str, st: BuildStatus) -> None:
     needed = gen_imports(prop)
     mods = _gen_modules()
     for mod in sorted(mods, key=lambda m: (not m.startswith(own), m)):
-        is_own = mod == own or mod.startswith(own + "_")
+        is_own = mod == own
         try:
             m = importlib.import_module(f"translate.{mod}")
             m.generate(LEAN_DIR)
